@@ -317,6 +317,23 @@ func init() {
 		e.storeLoc(st, loc, Val{T: loc.T, L: []Term{Ite(ok, args[2].L[0], cur.L[0])}})
 		k(st, fr, Val{T: rt, L: []Term{ok}})
 	}
+	// SwapPointer: an atomic unconditional exchange. Under cell havoc it overwrites whatever another goroutine has put
+	// there, exactly like StorePointer, so it owes the same blind-store obligation (`opt blindstore <cond>` names the
+	// overwritten values for which that is right); the overwritten value is then returned.
+	externModels["sync/atomic.SwapPointer"] = func(e *Engine, st *State, fr *Frame, callee *ssa.Function, args []Val, rt types.Type, pos string, k callCont) {
+		if e.atomicMode() {
+			panic(unsupported("sync/atomic pointer operations in atomic mode"))
+		}
+		e.obligationPanic(st, "nil", "atomic.SwapPointer", Not(Eq(args[0].L[0], IntLit(0))))
+		if e.cellHavoc(st, fr, args[0]) {
+			e.blindStore(st, fr, args[0], pos)
+		}
+		loc := e.locOf(args[0])
+		cur := e.loadLoc(st, loc)
+		cur.T = rt
+		e.storeLoc(st, loc, Val{T: loc.T, L: args[1].L})
+		k(st, fr, cur)
+	}
 	prim("(*sync/atomic.Value).Swap", "AVSwap")
 	prim("(*sync/atomic.Value).CompareAndSwap", "AVCompareAndSwap")
 	prim("(*sync.Pool).Get", "PoolGet")
